@@ -62,6 +62,8 @@ def material(rng, kind):
                 m["const_share"] = {i: j}
     if kind == "legacy" and rng.random() < 0.5:
         m["explicit_dims"] = True
+    if rng.random() < 0.4:
+        m["unpadded_heap"] = True
     if rng.random() < 0.6:
         m["texture_flags"] = [rng.choice([0, 0x8000, 0x8000, 1, 0xFFFF]) for _ in range(ntex)]
     m["samplers"] = [(rng.randrange(len(mtrlshpk.SAMPLER_IDS)), rng.getrandbits(32), rng.randrange(max(ntex, 1))) for _ in range(rng.randint(0, 4))]
